@@ -172,7 +172,7 @@ func genValueM(nm string, d int, full bool, calls *[]call, exp *[]jtok) {
 	case 4:
 		v := f32Corners[corner(nm+".f32", len(f32Corners), full)]
 		*calls = append(*calls, call{K: cF32, F: v})
-		*exp = append(*exp, jtok{tNumber, "f64:" + strconv.FormatUint(math.Float64bits(float64(float32(v))), 16)})
+		*exp = append(*exp, jtok{tNumber, "f32:" + strconv.FormatUint(uint64(math.Float32bits(float32(v))), 16)})
 	case 5:
 		b := corner(nm+".bool", 2, full) == 0
 		*calls = append(*calls, call{K: cBool, B: b})
@@ -541,7 +541,15 @@ func sameTokens(exp, got []jtok) bool {
 		}
 		switch exp[i].K {
 		case tNumber:
-			if len(exp[i].S) > 4 && exp[i].S[:4] == "f64:" {
+			if len(exp[i].S) > 4 && exp[i].S[:4] == "f32:" {
+				// a float32 payload: the text must denote the same float32
+				// (it may carry 32- or 64-bit shortest digits)
+				bits, _ := strconv.ParseUint(exp[i].S[4:], 16, 32)
+				f, err := strconv.ParseFloat(got[i].S, 64)
+				if err != nil || math.Float32bits(float32(f)) != uint32(bits) {
+					return false
+				}
+			} else if len(exp[i].S) > 4 && exp[i].S[:4] == "f64:" {
 				bits, _ := strconv.ParseUint(exp[i].S[4:], 16, 64)
 				f, err := strconv.ParseFloat(got[i].S, 64)
 				if err != nil || math.Float64bits(f) != bits {
@@ -781,6 +789,9 @@ func H15_Floats() {
 		}
 	}
 	num := jtok{tNumber, "f64:" + strconv.FormatUint(math.Float64bits(want), 16)}
+	if k == cF32 {
+		num = jtok{tNumber, "f32:" + strconv.FormatUint(uint64(math.Float32bits(float32(v))), 16)}
+	}
 	var calls []call
 	var exp []jtok
 	switch vrt.Choice("position", 3) {
